@@ -261,6 +261,35 @@ def skeletons(path: Path) -> dict[str, list[str]]:
     return out
 
 
+def primitive_sites(path: Path) -> list[str]:
+    """Every construction of a ``threading`` primitive in the module, as ``Class.func:Primitive`` in source order.
+    The model assumes the entry RLock is created once, in ``_SessionRegistry.open``, before the entry is published."""
+    tree = ast.parse(path.read_text())
+    out: list[str] = []
+
+    def scan(owner: str, node: ast.AST) -> None:
+        for sub in ast.walk(node):
+            if isinstance(sub, ast.Call):
+                ch = _attr_chain(sub.func)
+                if ch is not None and ch[0] == "threading" and len(ch) == 2 and ch[1][:1].isupper() and ch[1] != "Thread":
+                    out.append(f"{owner}:{ch[1]}")
+
+    for n in tree.body:
+        if isinstance(n, ast.ClassDef):
+            for f in n.body:
+                if isinstance(f, (ast.FunctionDef, ast.AsyncFunctionDef)):
+                    scan(f"{n.name}.{f.name}", f)
+                elif not isinstance(f, (ast.AnnAssign, ast.Assign, ast.Expr, ast.Pass)):
+                    scan(f"{n.name}.<body>", f)
+                elif isinstance(f, (ast.AnnAssign, ast.Assign)) and f.value is not None:
+                    scan(f"{n.name}.<body>", f.value)
+        elif isinstance(n, (ast.FunctionDef, ast.AsyncFunctionDef)):
+            scan(n.name, n)
+        elif isinstance(n, (ast.Assign, ast.AnnAssign)) and n.value is not None:
+            scan("<module>", n.value)
+    return out
+
+
 def _shape(sk: dict[str, list[str]], site: str) -> tuple[str, str]:
     def only_cmp(name: str) -> str:
         cs = [t for t in sk[name] if t.startswith("cmp:")]
@@ -284,4 +313,6 @@ def coq_text(path: Path) -> str:
     for _cls, _fn, name in FUNCS:
         items = "; ".join('"' + t + '"' for t in sk[name])
         lines.append(f"Definition {name} : list string := [{items}].")
+    sites = "; ".join('"' + t + '"' for t in primitive_sites(path))
+    lines.append(f"Definition gen_primitive_sites : list string := [{sites}].")
     return "\n".join(lines) + "\n"
